@@ -368,12 +368,13 @@ def extract_absdepth(tree):
         raise ExtractError("abstract depth path: marshal_one calls marshal_one_abstract %d times" % len(ms))
     out["mAbsCall"] = plus(ms[0], "flags", "marshal_one -> marshal_one_abstract")
     m = need(re.search(r"pushbyte\s*\(\s*st\s*,\s*LB_ABSTRACT\s*\)\s*;\s*marshal_one\s*\(\s*st\s*,\s*janet_csymbolv\s*\(\s*at->name\s*\)\s*,([^,()]*)\)\s*;\s*"
-                       r"JanetMarshalContext\s+context\s*=\s*\{\s*st\s*,\s*NULL\s*,([^,{}]*),\s*NULL\s*,\s*at\s*\}\s*;\s*at->marshal\s*\(\s*abstract\s*,\s*&context\s*\)\s*;", ma),
+                       r"JanetMarshalContext\s+(\w+)\s*=\s*\{\s*st\s*,\s*NULL\s*,([^,{}]*),\s*NULL\s*,\s*at\s*\}\s*;\s*at->marshal\s*\(\s*abstract\s*,\s*&\2\s*\)\s*;", ma),
              "marshal_one_abstract (lead, type name, context initialiser, hook call)")
     out["mAbsName"] = plus(m.group(1), "flags", "marshal_one_abstract -> marshal_one(type name)")
-    k = _plus(m.group(2), "flags")
+    k = _plus(m.group(3), "flags")
     out["mAbsCtxLocal"], out["mAbsCtx"] = (0, 0) if k is None else (1, k)
-    out["_mCtxExpr"] = m.group(2).strip()
+    out["_mCtxExpr"] = m.group(3).strip()
+    names = {"ctx", "context", m.group(2)}
     ms = re.findall(r"\bmarshal_one\s*\(\s*st\s*,\s*x\s*,([^,()]*)\)\s*;", mj)
     if len(ms) != 1:
         raise ExtractError("abstract depth path: janet_marshal_janet does not call marshal_one exactly once")
@@ -383,18 +384,20 @@ def extract_absdepth(tree):
         raise ExtractError("abstract depth path: unmarshal_one calls unmarshal_one_abstract %d times" % len(ms))
     out["uAbsCall"] = plus(ms[0], "flags", "unmarshal_one -> unmarshal_one_abstract")
     m = need(re.search(r"data\s*=\s*unmarshal_one\s*\(\s*st\s*,\s*data\s*,\s*&key\s*,([^,()]*)\)\s*;.*?"
-                       r"JanetMarshalContext\s+context\s*=\s*\{\s*NULL\s*,\s*st\s*,([^,{}]*),\s*data\s*,\s*at\s*\}\s*;\s*void\s*\*\s*abst\s*=\s*at->unmarshal\s*\(\s*&context\s*\)\s*;", ua, flags=re.S),
+                       r"JanetMarshalContext\s+(\w+)\s*=\s*\{\s*NULL\s*,\s*st\s*,([^,{}]*),\s*data\s*,\s*at\s*\}\s*;\s*void\s*\*\s*\w+\s*=\s*at->unmarshal\s*\(\s*&\2\s*\)\s*;", ua, flags=re.S),
              "unmarshal_one_abstract (type name, context initialiser, hook call)")
     out["uAbsName"] = plus(m.group(1), "flags", "unmarshal_one_abstract -> unmarshal_one(type name)")
-    k = _plus(m.group(2), "flags")
+    k = _plus(m.group(3), "flags")
     out["uAbsCtxLocal"], out["uAbsCtx"] = (0, 0) if k is None else (1, k)
-    out["_uCtxExpr"] = m.group(2).strip()
+    out["_uCtxExpr"] = m.group(3).strip()
+    names.add(m.group(2))
     ms = re.findall(r"ctx->data\s*=\s*unmarshal_one\s*\(\s*st\s*,\s*ctx->data\s*,\s*&ret\s*,([^,()]*)\)\s*;", uj)
     if len(ms) != 1:
         raise ExtractError("abstract depth path: janet_unmarshal_janet does not call unmarshal_one exactly once")
     out["uAbsItem"] = plus(ms[0], r"ctx->flags", "janet_unmarshal_janet -> unmarshal_one")
     # nobody else writes the depth field of a context
-    n = len(re.findall(r"(?:ctx->flags|context\.flags)\s*(?:[-+|&^]|<<|>>)?=(?!=)", src)) + len(re.findall(r"(?:\+\+|--)\s*(?:ctx->flags|context\.flags)|(?:ctx->flags|context\.flags)\s*(?:\+\+|--)", src))
+    fld = r"\b(?:%s)\s*(?:->|\.)\s*flags" % "|".join(sorted(re.escape(x) for x in names))
+    n = len(re.findall(fld + r"\s*(?:[-+|&^]|<<|>>)?=(?!=)", src)) + len(re.findall(r"(?:\+\+|--)\s*" + fld + "|" + fld + r"\s*(?:\+\+|--)", src))
     if n:
         raise ExtractError("abstract depth path: the flags field of a JanetMarshalContext is assigned after its initialiser (%d places)" % n)
     if len(re.findall(r"\bJanetMarshalContext\s+\w+\s*=", src)) != 2:
